@@ -400,3 +400,108 @@ func R9CycleGuard(c *Ctx) {
 	}
 	_ = core.Discharged
 }
+
+// R9MoveUnlinks — re-linking an existing agent first removes its old link.
+func R9MoveUnlinks(c *Ctx) {
+	const rule = "R9-move-unlinks"
+	c.R.Rule(rule, "where TaskDispatch appends an existing agent (AgentInstance of the packet's id) to the sender's links, every path to that append on which the agent still had a parent passes teamserver.LinkRemove(<that agent>.Pivots.Parent, <that agent>, true): the only way around the LinkRemove call is the edge on which Pivots.Parent == nil — otherwise the child stays listed under its old parent (or twice under the same one)", 1)
+	td := c.P.Func(PkgAgent, "Agent.TaskDispatch")
+	if td == nil {
+		c.R.Anchor(rule, "agent.(*Agent).TaskDispatch")
+		return
+	}
+	n := 0
+	for _, ls := range c.findLinksStores() {
+		if ls.fn != td || !ls.grow || ls.elem == nil {
+			continue
+		}
+		var inst *ssa.Call
+		DerivesFrom(ls.elem, func(v ssa.Value) bool {
+			cl, ok := v.(*ssa.Call)
+			if ok && strings.HasSuffix(CalleeName(cl), ".AgentInstance") {
+				inst = cl
+				return true
+			}
+			return false
+		})
+		if inst == nil {
+			continue
+		}
+		n++
+		// cut: blocks with LinkRemove(elem.Pivots.Parent, elem, true); edges on which elem.Pivots.Parent == nil
+		cutBlock := map[*ssa.BasicBlock]bool{}
+		cutEdge := map[[2]*ssa.BasicBlock]bool{}
+		for _, b := range td.Blocks {
+			for _, in := range b.Instrs {
+				if call, ok := in.(ssa.CallInstruction); ok && strings.HasSuffix(CalleeName(call), ".LinkRemove") {
+					args := CallArgs(call)
+					if len(args) == 3 && isBoolConst(args[2], true) &&
+						DerivesFrom(args[1], func(v ssa.Value) bool { return v == ssa.Value(inst) }) &&
+						DerivesFrom(args[0], IsFieldLoad(PkgAgent+".Pivots", "Parent")) && DerivesFrom(args[0], func(v ssa.Value) bool { return v == ssa.Value(inst) }) {
+						cutBlock[b] = true
+					}
+				}
+			}
+			if len(b.Instrs) == 0 {
+				continue
+			}
+			iff, ok := b.Instrs[len(b.Instrs)-1].(*ssa.If)
+			if !ok {
+				continue
+			}
+			bo, ok := iff.Cond.(*ssa.BinOp)
+			if !ok || !(isNilConst(bo.X) || isNilConst(bo.Y)) {
+				continue
+			}
+			v := bo.X
+			if isNilConst(bo.X) {
+				v = bo.Y
+			}
+			if DerivesFrom(v, IsFieldLoad(PkgAgent+".Pivots", "Parent")) && DerivesFrom(v, func(x ssa.Value) bool { return x == ssa.Value(inst) }) {
+				// the edge on which the parent is nil
+				if bo.Op == token.NEQ {
+					cutEdge[[2]*ssa.BasicBlock{b, b.Succs[1]}] = true
+				} else if bo.Op == token.EQL {
+					cutEdge[[2]*ssa.BasicBlock{b, b.Succs[0]}] = true
+				}
+			}
+		}
+		// reach the append from the AgentInstance call without passing a cut
+		seen := map[*ssa.BasicBlock]bool{}
+		reached := false
+		var walk func(b *ssa.BasicBlock)
+		walk = func(b *ssa.BasicBlock) {
+			if seen[b] || reached {
+				return
+			}
+			seen[b] = true
+			if b == ls.st.Block() {
+				reached = true
+				return
+			}
+			if cutBlock[b] {
+				return
+			}
+			for _, s := range b.Succs {
+				if cutEdge[[2]*ssa.BasicBlock{b, s}] {
+					continue
+				}
+				walk(s)
+			}
+		}
+		if inst.Block() == ls.st.Block() {
+			reached = !cutBlock[inst.Block()]
+		} else {
+			walk(inst.Block())
+		}
+		construct := "re-link of an existing agent drops its old link first"
+		if !reached && len(cutBlock) > 0 {
+			c.R.Ok(rule, FuncShort(td), construct, c.pos(ls.st.Pos()), "every path to the append with a non-nil old parent passes LinkRemove(old parent, child, true)", true)
+		} else {
+			c.R.Bad(rule, FuncShort(td), construct, c.pos(ls.st.Pos()), "the append can be reached with the agent still linked under a parent and without LinkRemove(old parent, child, true): the child is then listed under two parents, or twice under the same one, and a later disconnect leaves a stale entry")
+		}
+	}
+	if n == 0 {
+		c.R.Anchor(rule, "the reconnect append of an AgentInstance result to a.Pivots.Links")
+	}
+}
